@@ -64,7 +64,12 @@ def native_C02(tier, seed):
                 ll = rng.normal(size=n) * mag + off
                 lp = rng.normal(size=n)
                 lq = rng.normal(size=n)
-                kind = r % 4
+                kind = r % 5
+                if kind == 4:       # nearly uniform weights: the spread of the weights is tiny compared with their size (cancellation-prone)
+                    sp = 3e-4 if dtn == "float32" else 1e-8
+                    ll = off + sp * rng.normal(size=n)
+                    lp[:] = 0.0
+                    lq[:] = 0.0
                 if kind == 1:       # ties
                     ll[:] = ll[0]
                     lp[:] = lp[0]
@@ -99,6 +104,9 @@ def native_C02(tier, seed):
                     fails.append({"id": f"C02-ess-{nsname}-{dtn}-{r}", "obligation": "cw_ess_spec", "what": f"ESS {ess} vs {ref2[1]} (n={n})", "input": inp})
                 if not (math.isfinite(rel) and abs(rel - ref2[2]) <= max(1e-3 if dtn == "float32" else 1e-8, (2e-3 if dtn == "float32" else 1e-7) * ref2[2])):
                     fails.append({"id": f"C02-relerr-{nsname}-{dtn}-{r}", "obligation": "cw_log_evidence_error_spec", "what": f"log_evidence_error {rel} vs {ref2[2]}", "input": inp})
+                elif kind == 4 and ref2[2] > 0 and not (abs(rel - ref2[2]) <= 0.05 * ref2[2]):
+                    fails.append({"id": f"C02-relerr-nearuniform-{nsname}-{dtn}-{r}", "obligation": "cw_log_evidence_error_spec",
+                                  "what": f"nearly uniform weights: log_evidence_error {rel} vs {ref2[2]} (relative accuracy lost)", "input": inp})
     # rejection sampling with a recording generator
     class U:
         def __init__(self, u):
